@@ -11,11 +11,14 @@ GROUPS = {
     "quick": [("MC_Inherit", inherit.CFG, "inherit"), ("MC_Impl", impl.CFG, "impl"), ("MC_Vft", vft.CFG, "vft"),
               ("MC_Enum", enums.CFG, "enum"), ("MC_Scope", {"quick": ["MC_Scope_q2.cfg"]}, "scope"),
               ("MC_Layout", {"quick": ["MC_Layout_q2.cfg", "MC_Layout_q5.cfg"]}, "layout"),
-              ("MC_Names", {"quick": ["MC_Names_q1.cfg"]}, "names")],
+              ("MC_Names", {"quick": ["MC_Names_q1.cfg"]}, "names"),
+              # the text-level family: every accepted single-token mutation of the base texts, fed to pyxis as text
+              ("MC_Pipe", {"quick": ["MC_Pipe_q1.cfg"]}, "pipe")],
     "thorough": [("MC_Inherit", inherit.CFG, "inherit"), ("MC_Impl", impl.CFG, "impl"), ("MC_Vft", vft.CFG, "vft"),
                  ("MC_Enum", enums.CFG, "enum"), ("MC_Scope", scope.CFG, "scope"),
                  ("MC_Layout", {"thorough": layout.CFG["thorough"] + ["MC_Layout_q5.cfg"]}, "layout"),
-                 ("MC_Names", {"quick": ["MC_Names_q1.cfg"]}, "names")],
+                 ("MC_Names", {"quick": ["MC_Names_q1.cfg"]}, "names"),
+                 ("MC_Pipe", {"quick": ["MC_Pipe_q1.cfg"]}, "pipe")],
 }
 
 
@@ -26,6 +29,20 @@ def in_fragment(case):
         # a module whose name is no Rust identifier (`c.v1`) cannot be declared by a `mod` item mirroring the tree
         if any(not re.fullmatch(r"(r#)?[A-Za-z_][A-Za-z0-9_]*", seg) for seg in m["path"]):
             return False
+    for m in case["input"]["mods"]:
+        for d in m["defs"]:
+            # a singleton at address 0 is a null dereference (rustc's deref_nullptr lint refuses it)
+            if d.get("singleton") == 0:
+                return False
+            if d["k"] == "enum":
+                # two cases with one discriminant are outside Rust's enums (explicit values; the implicit ones count up)
+                vals, cur = [], None
+                for v in d["vars"]:
+                    x = conform_num(v["val"])
+                    cur = x if x is not None else (0 if cur is None else cur + 1)
+                    vals.append(cur)
+                if len(set(vals)) != len(vals):
+                    return False
     for m in case["input"]["mods"]:
         for d in m["defs"]:
             if d["k"] != "type":
@@ -44,6 +61,15 @@ def in_fragment(case):
                 if t.get("k") == "nm" and t.get("n") == "void":
                     return False
     return True
+
+
+def conform_num(v):
+    """a symbolic integer of the specification as a Python int (None when no value is written)"""
+    from .conform import num
+    if isinstance(v, dict) and v.get("a") == "none":
+        return None
+    n = num(v)
+    return n if isinstance(n, int) else None
 
 
 BUILTIN = {"void", "bool", "u8", "u16", "u32", "u64", "u128", "i8", "i16", "i32", "i64", "i128", "f32", "f64"}
